@@ -18,6 +18,14 @@ CHECKS = {
             "Exploration: every form reached by random conversion histories must show the reference tree's variables and term; operator listings are checked against the tree; arbitrary strings accepted by both parsers must agree in every form.",
             "Trusted: reference semantics; equal acceptance of sloppy strings is deliberately not demanded.",
             "DESIGN.md 3/C03"),
+    "C14": ("runtime monitor: reduction-trace hook (H1) checked online against a shadow consumed-set, term-algebra result oracle, tracker driven directly against Vec<bool>",
+            "Exploration with an exhaustive sub-space: every application order of chains with up to 8 (quick) / 9 (thorough) operands, structured and random orders at lengths straddling 32/64/128/192/256/500/1000 operands; each reduction step of eval_binary is observed through hook H1 and checked (nearest live operands, nothing consumed twice, order imposed by priorities), the final term is compared with the model, and both NumberTracker implementations are driven directly against a Vec<bool> shadow.",
+            "Trusted: the 30-line chain-reduction model; hook H1 records (op, left, right, n) faithfully.",
+            "DESIGN.md 3/C14"),
+    "C15": ("runtime monitor: move/clone/placeholder-tracking value type at the public API",
+            "Exploration: the flat evaluator runs over a value type that counts clones per variable identity and flags default placeholders; every operand reaching an operator is inspected. eval_vec/eval_iter are compared with eval and with the reference tree on ~10^5 (quick) random expressions with arbitrary repetition patterns.",
+            "Trusted: Tok's Clone/Default instrumentation; nothing demanded about clone counts of repeated variables.",
+            "DESIGN.md 3/C15"),
 }
 
 PENDING = "monitor designed in DESIGN.md section 3 but not built/validated yet in this tree; not claimed until it is silent on the unchanged tree and catches seeded breaks"
